@@ -25,13 +25,14 @@ Record field := { f_attrs : member_attrs; f_idx : nat; f_member : member; f_memb
                   f_ty : option (list tok) }.
 Record variant := { v_attrs : member_attrs; v_ident : string; v_fields : list field; v_named : bool; v_unit : bool }.
 Record struct_ := { s_attrs : dt_attrs; s_ident : string; s_generics : list gparam; s_fields : list field;
-                    s_named : bool; s_unit : bool }.
-Record enum_ := { e_attrs : dt_attrs; e_ident : string; e_generics : list gparam; e_variants : list variant }.
+                    s_named : bool; s_unit : bool; s_where : list (list tok) (* the item's own where-predicates *) }.
+Record enum_ := { e_attrs : dt_attrs; e_ident : string; e_generics : list gparam; e_variants : list variant; e_where : list (list tok) }.
 Inductive data_type := DStruct (s : struct_) | DEnum (e : enum_).
 
 Definition dt_ident (d : data_type) := match d with DStruct s => s_ident s | DEnum e => e_ident e end.
 Definition dt_get_attrs (d : data_type) := match d with DStruct s => s_attrs s | DEnum e => e_attrs e end.
 Definition dt_generics (d : data_type) := match d with DStruct s => s_generics s | DEnum e => e_generics e end.
+Definition dt_where (d : data_type) := match d with DStruct s => s_where s | DEnum e => e_where e end.
 
 (* ---------------- member attrs: second loop of get_member_attrs ---------------- *)
 Definition as_type_attrs (this_ty : list tok) (a : as_attr) : list member_attr :=
@@ -281,9 +282,9 @@ Definition struct_from_syn (be : backend) (x : raw_input) (sh : shape) (fs : lis
   '(attrs, bark) <- get_data_type_attrs be (ri_attrs x) ;;
   '(fields, _) <- fields_from_syn be bark None 0 fs ;;
   Ok {| s_attrs := attrs; s_ident := ri_ident x; s_generics := ri_generics x; s_fields := fields;
-        s_named := shape_named sh; s_unit := shape_unit sh |}.
+        s_named := shape_named sh; s_unit := shape_unit sh; s_where := ri_where x |}.
 
 Definition enum_from_syn (be : backend) (x : raw_input) (vs : list raw_variant) : res enum_ :=
   '(attrs, bark) <- get_data_type_attrs be (ri_attrs x) ;;
   variants <- variants_from_syn be bark None None vs ;;
-  Ok {| e_attrs := attrs; e_ident := ri_ident x; e_generics := ri_generics x; e_variants := variants |}.
+  Ok {| e_attrs := attrs; e_ident := ri_ident x; e_generics := ri_generics x; e_variants := variants; e_where := ri_where x |}.
